@@ -111,6 +111,11 @@ func DumpInputWrites(cfg string) {
 		fmt.Println("return-global:", l)
 	}
 	fmt.Println(st["exported functions with pointer-like results"])
+	st = checkReturnInterior(p, r.Rule("RETURN-interior", "", 0), true)
+	for _, l := range st["discovered"].([]string) {
+		fmt.Println("return-interior:", l)
+	}
+	fmt.Println(st["exported functions with pointer results"])
 	st = checkAliasSlice(p, r.Rule("ALIAS-slice", "", 0), true)
 	for _, l := range st["discovered"].([]string) {
 		fmt.Println("alias-slice:", l)
